@@ -162,10 +162,13 @@ def run(repo):
             raise exlib.ExtractError("constant %s not found in %s" % (c, rel))
         s += "/-- `const %s` of %s -/\ndef %s : String := \"%s\"\n\n" % (c, rel, c, m.group(1))
     for fn in ("write_message", "write_chunk_impl", "write_tick"):
-        body = exlib.fn_body(src, fn, 0, rel)
+        # the packing loop of `write_message` lives in `pack_message` (shared with `fits_message`)
+        body = exlib.fn_body(src, "pack_message" if fn == "write_message" else fn, 0, rel)
         s += "/-- integer literals of `Writer::%s` in %s, in source order -/\n" % (fn, rel)
         s += "def lits_%s : List Nat := %s\n\n" % (fn, exlib.lean_nat_list(exlib.int_literals(body)))
-    body = exlib.fn_body(src, "write_message", 0, rel)
+    body = exlib.fn_body(src, "pack_message", 0, rel)
+    if "self.pack_message(msg)" not in exlib.fn_body(src, "write_message", 0, rel):
+        raise exlib.ExtractError("write_message no longer packs through pack_message in %s" % rel)
     s += "/-- does `write_message` build its integers with `from_le_bytes`? -/\ndef write_message_le : Bool := %s\n\n" % (
         "true" if "i32::from_le_bytes" in body else "false")
     body = exlib.fn_body(src, "write_chunk_impl", 0, rel)
@@ -223,6 +226,19 @@ def run(repo):
     order = sorted((wb.find(tok), name) for name, tok in marks if wb.find(tok) >= 0)
     s += "/-- first occurrences, in source order, of: clearing the buffer, packing the snap, writing the tick marker, writing the data chunk in `write_snap` -/\n"
     s += "def write_snap_order : List String := [%s]\n\n" % ", ".join('"%s"' % n for _, n in order)
+    pre = []
+    for fn in ("write_snap", "write_msg"):
+        b = exlib.fn_body(src, fn, 0, rel)
+        for mm in re.finditer(r"(!?)\s*(?:crate::Writer::|self\.inner\.)(fits_[a-z]+)\(", b):
+            pre.append("%s: %s%s" % (fn, mm.group(1), mm.group(2)))
+    s += "/-- the size pre-checks of `write_snap` / `write_msg` (refusal before anything is written) -/\n"
+    s += "def hl_prechecks : List String := [%s]\n\n" % ", ".join('"%s"' % x for x in pre)
+    wsrc = exlib.strip_rust_comments(exlib.read(repo, "demo/src/writer.rs"))
+    fc = exlib.fn_body(wsrc, "fits_chunk", 0, "demo/src/writer.rs")
+    fm = exlib.fn_body(wsrc, "fits_message", 0, "demo/src/writer.rs")
+    s += "/-- the conditions of `Writer::fits_chunk` and `Writer::fits_message` -/\n"
+    s += "def fits_chunk_cond : String := \"%s\"\n" % re.sub(r"\s+", " ", fc.strip("{} \n"))
+    s += "def fits_message_cond : String := \"%s\"\n\n" % re.sub(r"\s+", " ", fm.strip("{} \n"))
     body = exlib.fn_body(src, "write_snap", 0, rel)
     s += "/-- which snapshot does `write_snap` recycle into the next builder? -/\n"
     mm = re.findall(r"self\.builder\s*=\s*([^;]*);", body)
